@@ -1,7 +1,66 @@
-import Srsim.Model.Gcs.Parse
-/-! placeholder, replaced by the full theorem file once its proofs are in -/
-namespace Gcs
+import Srsim.Spec.Gcs.Grammar
+import Srsim.Proofs.Pratt
+/-!
+# C14 — gcs source is parsed into the tree the grammar prescribes (expression core)
+
+`Gcs.Grammar.toks` prints a tree with exactly the parentheses the precedence grammar requires;
+the theorems say the Pratt parser model (`Gcs.Parse.parseExpr`) reads it back, for every tree,
+every ambient precedence and every continuation of the token stream.
+-/
+namespace Gcs.Grammar
 open Gcs.Lex Gcs.Parse
+
 theorem C14_prec_order : prec tOr < prec tAnd ∧ prec tAnd < prec tEq ∧ prec tEq < prec tLt ∧ prec tLt < prec tPlus ∧
     prec tPlus < prec tAsterisk ∧ prec tAsterisk < 8 ∧ 8 < prec tLParen := by decide
-end Gcs
+
+/-- **Round trip (expressions)**: for every well-formed tree `e`, every ambient precedence
+`ctx ≥ 1`, every prefix `pre` of already consumed tokens and every continuation `rest` at which an
+expression at that precedence must stop, parsing `pre ++ toks ctx e ++ rest` from the end of
+`pre` yields exactly `e` and consumes exactly the tokens of `e`, given enough fuel. -/
+theorem C14_roundtrip (e : E) (hwf : e.WF) (ctx : Nat) (hctx : 1 ≤ ctx) (pre rest : List Tok) (hstop : Stops ctx rest)
+    (hrest : ∀ t ∈ rest.head?, t.typ ≠ tLParen) :
+    ∃ f0 : Nat, ∀ f, f0 ≤ f →
+      ∃ p', parseExpr f ⟨(pre ++ toks ctx e ++ rest).toArray, (pre.length : Int) - 1⟩ ctx = Res.ok e.toExpr p' ∧
+        p'.pos = ((pre ++ toks ctx e).length : Int) - 1 := by
+  have hd0 : (pre ++ toks ctx e ++ rest).drop pre.length = toks ctx e ++ rest := by
+    rw [List.append_assoc, List.drop_left]
+  have hd1 : (pre ++ toks ctx e ++ rest).drop (pre.length + (toks ctx e).length) = rest := drop_add hd0
+  have hs : (hd rest).typ = tTerm ∨ prec (hd rest).typ ≤ ctx := by
+    cases rest with
+    | nil =>
+      have h0 : prec (0 : Nat) = 1 := by decide
+      exact Or.inr (show prec 0 ≤ ctx by omega)
+    | cons t rest' => exact hstop
+  have hl : (hd rest).typ ≠ tLParen := by
+    cases rest with
+    | nil => show (0 : Nat) ≠ tLParen; decide
+    | cons t rest' => exact hrest t (by simp)
+  refine ⟨1 + need e, fun f hf => ⟨mk (pre ++ toks ctx e ++ rest) (pre.length + (toks ctx e).length), ?_, ?_⟩⟩
+  · refine A_thm e hwf ctx ctx (pre ++ toks ctx e ++ rest) pre.length rest _ _ 1 hctx (Nat.le_refl _) hd0
+      ⟨hs.imp id (fun h => by omega), hl⟩ ?_ f hf
+    intro g hg
+    obtain ⟨g', rfl⟩ : ∃ g', g = g' + 1 := ⟨g - 1, by omega⟩
+    apply infixLoop_stop
+    rw [hd1]; exact hs
+  · simp [mk]
+
+/-- corollary: operators group by precedence and to the left among equals; e.g. the tokens of
+`a - b - c * d` (no parentheses) parse to `(a - b) - (c * d)` -/
+theorem C14_example_left_assoc (a b c d : List Nat) :
+    ∃ f p', parseExpr f ⟨(toks 1 (.binary tMinus (.binary tMinus (.ident a) (.ident b)) (.binary tAsterisk (.ident c) (.ident d)))).toArray, -1⟩ 1
+      = Res.ok (Expr.binary tMinus (Expr.binary tMinus (Expr.ident a) (Expr.ident b)) (Expr.binary tAsterisk (Expr.ident c) (Expr.ident d))) p' ∧
+    toks 1 (.binary tMinus (.binary tMinus (.ident a) (.ident b)) (.binary tAsterisk (.ident c) (.ident d)))
+      = [tk tIdent a, tk tMinus, tk tIdent b, tk tMinus, tk tIdent c, tk tAsterisk, tk tIdent d] := by
+  obtain ⟨f0, h⟩ := C14_roundtrip
+    (.binary tMinus (.binary tMinus (.ident a) (.ident b)) (.binary tAsterisk (.ident c) (.ident d)))
+    (by simp [E.WF]; decide) 1 (Nat.le_refl _) [] [] trivial (by simp)
+  obtain ⟨p', hp, _⟩ := h f0 (Nat.le_refl _)
+  exact ⟨f0, p', by simpa [E.toExpr] using hp, rfl⟩
+
+/-- parentheses override: a right operand of equal precedence is parenthesised by the printer -/
+theorem C14_example_paren (a b c : List Nat) :
+    toks 1 (.binary tMinus (.ident a) (.binary tMinus (.ident b) (.ident c)))
+      = [tk tIdent a, tk tMinus, tk tLParen, tk tIdent b, tk tMinus, tk tIdent c, tk tRParen] := by
+  rfl
+
+end Gcs.Grammar
